@@ -167,6 +167,13 @@ func genTCPConn(r *Rng, cfg []cfgKey, focus string) tcpConnSpec {
 		sp.TOut = [2]int{400000 + r.Intn(3)*100000, int(r.U64() % 1000000)}
 		sp.SlowStartMs = 300
 	}
+	if sp.Kind == "honest" && sp.Corrupt == 0 && sp.ConnectOK && sp.Fin && !sp.TFinFirst && sp.SlowStartMs == 0 && sp.AKind <= 3 && !sp.Validate && sel >= probeW+postW+dialW && (focus == "C15" && r.Chance(12) || r.Chance(4)) {
+		// the target reads the whole upload, replies, then resets: only the download direction fails
+		sp.TReset, sp.TFirst = true, false
+		if sp.TOut[0] > 20000 {
+			sp.TOut[0] = 20000
+		}
+	}
 	if sp.Kind != "honest" || sp.Corrupt != 0 || !sp.ConnectOK || sp.TFinFirst || sp.Fin || sp.AKind == 9 || (sp.AKind >= 20 && sp.AKind < 30 && sp.AKind != 21) || (sp.Validate && !tcpKindPublic(sp.AKind)) || sp.C < 0 {
 		sp.TLate = [2]int{}
 	}
@@ -468,7 +475,10 @@ func tcpMonitors(ctx *Ctx, prop string, cs *tcpCaseSpec, i int, sp *tcpConnSpec,
 		}
 	}
 	validKind := sp.AKind <= 3 || (sp.AKind >= 4 && sp.AKind <= 15 && sp.AKind != 9) || sp.AKind == 21 || (sp.AKind >= 30 && sp.AKind <= 33)
-	if sp.Kind == "honest" && sp.Corrupt == 0 && validKind && (!sp.Validate || tcpKindPublic(sp.AKind)) && sp.ConnectOK {
+	if sp.TReset && authenticated && ob.Status != "ERR_RELAY_TARGET" {
+		ctx.Monitor("C15/status-hides-target-error", fmt.Sprintf("the target reset its connection after replying (the upload had completed); the connection was reported closed with %s", ob.Status), rep)
+	}
+	if sp.Kind == "honest" && sp.Corrupt == 0 && validKind && (!sp.Validate || tcpKindPublic(sp.AKind)) && sp.ConnectOK && !sp.TReset {
 		inCfg := false
 		for _, k := range cs.Cfg {
 			if k.C == sp.C && k.S == sp.S {
